@@ -3,7 +3,7 @@
     model of RouteAst.v and the equality of Objects.v, at exact real arithmetic, for every
     simplifier [norm] and every iteration order [enum] of the variable-name sets. *)
 From Coq Require Import Reals List Bool.
-From SM Require Import Num Syntax Outcome Eval RInst Objects RouteAst.
+From SM Require Import Num Syntax Outcome Eval RInst Objects RouteAst Spec.
 Import ListNotations.
 
 (** what [==] and [hash] see of a derivative object (TieObj.v: the [__eq__] / [__hash__] bodies read
@@ -26,3 +26,11 @@ Definition C06_at_equals_located : Prop :=
     mk_located RInst enum e p None = Val o' ->
     py_eq RInst (located_pyobj o) (located_pyobj o') = true /\
     py_eq RInst (located_pyobj o') (located_pyobj o) = true.
+
+(** ... and the two constructions succeed or fail together: where the expression is well formed and
+    the point supplies its variables, the late [Differential(e).at(p)] IS the outcome of
+    [LocatedDifferential(e, p)] — the same stored partials, or DomainError from both *)
+Definition C06_at_located_same_outcome : Prop :=
+  forall (norm : expr R -> expr R) (enum : expr R -> list name) (e : expr R) (p : point R),
+    wfR e -> supplies p e ->
+    diff_at RInst enum (mk_differential RInst norm enum e false) p = mk_located RInst enum e p None.
